@@ -17,7 +17,8 @@ import (
 	"verif/vf"
 )
 
-// schedule: 0 natural, 1 late abort (pause after the socket write), 2 late background read
+// schedule: 0 natural, 1 late abort (pause after Write returned), 2 late background read,
+// 3 late activation (pause between the plaintext socket write of M4 and the activation of the encrypter)
 var schedule int32
 var delaysTaken int64
 
@@ -26,6 +27,11 @@ func installHandoverHook() {
 		switch atomic.LoadInt32(&schedule) {
 		case 1:
 			if point == "conn.write.done" {
+				atomic.AddInt64(&delaysTaken, 1)
+				time.Sleep(20 * time.Millisecond)
+			}
+		case 3:
+			if point == "conn.write.written" {
 				atomic.AddInt64(&delaysTaken, 1)
 				time.Sleep(20 * time.Millisecond)
 			}
@@ -41,7 +47,7 @@ func installHandoverHook() {
 	})
 }
 
-var scheduleNames = []string{"natural", "late-abort", "late-background-read"}
+var scheduleNames = []string{"natural", "late-abort", "late-background-read", "late-activation"}
 
 // raceChild runs handovers in the -race build; the parent reads the race log.
 func raceChild() {
@@ -141,7 +147,7 @@ func handoverN(r *vf.Run, per int) {
 }
 
 func handoverRun(r *vf.Run, a *app.App, me *refctl.Identity, acc app.StoredEntity, per int) {
-	for mode := 0; mode < 3; mode++ {
+	for mode := 0; mode < len(scheduleNames); mode++ {
 		n := per
 		if mode == 0 {
 			n = per * 5 // the natural rate of the race is low: more trials
